@@ -50,7 +50,7 @@ CLAIMED = {
  'C06': dict(
    technique='runtime monitoring: online reference-model monitor over call records of seeded random histories (generic driver, hostile peer, small alphabets), every call under catch_unwind in the overflow-checks build',
    level='exploration',
-   text='Store shadow with allowed transitions: an accepted QoS>0 PUBLISH is sent or stored (S1), stored under a persistent session (S2), the exported store changes only for a cause (matching ack, erase, oversize drop, new session) and otherwise equals the shadow after EVERY call (S3), stored packets hold their id (S9), only the matching acknowledgement is accepted (S6), retransmission after CONNACK equals the store in order with DUP, full topic, no alias and before any other packet (S4), session-not-present empties it (S5), every PUBLISH/PUBREL requested for sending is exactly one well-formed frame of the announced size (S10), the PUBLISH passed on is the accepted one in QoS, RETAIN, DUP, id, payload and other properties (S13), the stored copy is the accepted packet: the topic the application meant, no alias, same QoS/RETAIN/payload/properties (S12). About 5% of the v5 packets carry a property section at the 127/128 length-prefix boundary, 8% of the acks carry properties.',
+   text='Store shadow with allowed transitions: an accepted QoS>0 PUBLISH is sent or stored (S1), stored under a persistent session (S2), the exported store changes only for a cause (matching ack, erase, oversize drop, new session) and otherwise equals the shadow after EVERY call (S3), stored packets hold their id (S9), only the matching acknowledgement is accepted (S6), retransmission after CONNACK equals the store in order with DUP, full topic, no alias and before any other packet (S4), session-not-present empties it (S5), every PUBLISH/PUBREL requested for sending is exactly one well-formed frame of the announced size (S10), the PUBLISH passed on is the accepted one in QoS, RETAIN, DUP, id, payload and other properties (S13), the stored copy is the accepted packet: the topic the application meant, no alias, same QoS/RETAIN/payload/properties (S12). About 5% of the v5 packets carry a property section at the 127/128 length-prefix boundary, 8% of the acks carry properties, a fifth of the publishes carry RETAIN, 10% other PUBLISH properties.',
    note='Trusted: the reference model of DESIGN Appendix F (written from the property statements, updated only from calls, returned events and public probes) and the application contract of DESIGN §3.3. The hook digest is only used to read the in-use id set faster; the same clause is re-checked black-box by register()/release() probing on a sample of calls.',
    design='DESIGN.md §4 + Appendix F'),
  'C07': dict(
